@@ -1702,6 +1702,43 @@ def c19_s(ctx):
         raise Anchor("C19-S", "RecvTransaction::suspend and SendTransaction::suspend")
 
 
+# ================================================================ C09-G10
+@rule("C09", "C09-G10", 1, "how many bytes are held decides nothing about which bytes are held: no branch of the receive transaction compares the byte counter with a size or offset (its only test is 'did it grow since the last NAK'); completeness is asked of the range list", also=("C08", "C01"))
+def c09_g10(ctx):
+    fns = impl_and_closures(ctx, RECV)
+    n = 0
+    reads = 0
+    for f in fns:
+        eb = ExprBuilder(ctx.prog, f)
+        sites = []
+        for b in f.live_blocks():
+            t = f.blocks[b]["term"]
+            if t["k"] == "switch":
+                sites.append((t["span"]["line"], eb.operand(t["discr"])))
+            for s_ in f.blocks[b]["stmts"]:
+                if s_["k"] == "assign" and s_["rv"]["k"] in ("binop", "binary", "checked_binop"):
+                    e_ = eb.rvalue(s_["rv"])
+                    if expr_str(e_).startswith(("Lt(", "Le(", "Gt(", "Ge(", "Eq(", "Ne(", "lt(", "le(", "gt(", "ge(", "eq(", "ne(")):
+                        sites.append((s_["span"]["line"], e_))
+        seen_txt = set()
+        for line_, e_ in sites:
+            n += 1
+            txt = expr_str(e_)
+            if "self.received_file_size" not in txt or txt in seen_txt:
+                continue
+            seen_txt.add(txt)
+            reads += 1
+            t = {"span": {"line": line_}}
+            key = "%s:branch-on-counter" % f.name
+            others = [pl for pl in places_in(e_) if pl not in ("self.received_file_size", "self.nak_received_file_size", "self")]
+            if "self.nak_received_file_size" in txt and not others:
+                yield ok("C09-G10", key, at(f, t["span"]["line"]), "progress-since-last-NAK test: " + txt[:120])
+            else:
+                yield bad("C09-G10", key, at(f, t["span"]["line"]), "a decision in %s compares the number of bytes held with %s: bytes beyond the EOF size or a hole of equal size make the count right and the file wrong" % (f.name, txt[:160]))
+    if n == 0 or reads == 0:
+        raise Anchor("C09-G10", "branches of RecvTransaction that read received_file_size")
+
+
 # ================================================================ C01-P
 @rule("C01", "C01-P", 1, "the receiver reports the file as retained only after it copied the staged file to the destination (no shortcut around the copy)")
 def c01_p(ctx):
